@@ -287,6 +287,45 @@ def run(ctx: Ctx) -> None:
                 if highs != want_h:
                     ctx.violation("C15:srbits", "random-bit counts used differ from the caller's formats", key,
                                   {"used": highs, "want": want_h})
+        # ---------------- one transformed module, many input shapes (varying batch / sequence length): every call is
+        #                  quantised, however many different shapes the module has already seen
+        class ShapeNet(nn.Module):
+            def __init__(self) -> None:
+                super().__init__()
+                self.l1 = nn.Linear(8, 12)
+                self.l2 = nn.Linear(12, 8)
+
+            def forward(self, x):  # type: ignore[no-untyped-def]
+                return x + self.l2(torch.tanh(self.l1(x)))
+
+        f_ = FPFormat(3, 2, "nearest")
+        b_ = FPFormat(4, 1, "nearest")
+        torch.manual_seed(5)
+        net = ShapeNet()
+        qf_, qb_ = make_ref(f_, b_)
+        key0 = {"path": "dynamo", "many_shapes": True, "formats": "rn E3M2/E4M1"}
+        tq = None
+        with ctx.guard("C15:many-shapes:transform", key0):
+            tq = simulate_format(net, f_, b_)
+        if tq is not None:
+            shapes_ = [(2, 8), (3, 8), (1, 4, 8), (5, 8), (2, 3, 8), (7, 8), (4, 2, 8), (6, 8), (2, 5, 8), (9, 8), (3, 3, 8), (11, 8)]
+            for si, sh in enumerate(shapes_ if quick else shapes_ + [(k_, 8) for k_ in range(12, 30)]):
+                key = {**key0, "call": si, "shape": list(sh)}
+                ctx.count(key, bucket="dynamo/many-shapes")
+                x = torch.randn(*sh)
+                with ctx.guard("C15:many-shapes", key):
+                    xi = x.clone().requires_grad_(True)
+                    y = tq(xi)
+                    (gx,) = torch.autograd.grad(y.sum(), xi)
+                    xr_ = x.clone().requires_grad_(True)
+                    h_ = torch.tanh(qb_(F.linear(qf_(xr_), qf_(net.l1.weight), net.l1.bias)))
+                    yr = xr_ + qb_(F.linear(qf_(h_), qf_(net.l2.weight), net.l2.bias))
+                    (gr,) = torch.autograd.grad(yr.sum(), xr_)
+                    if not torch.equal(y.detach(), yr.detach()) or not torch.equal(gx, gr):
+                        plain = torch.equal(y.detach(), net(x).detach())
+                        ctx.violation("C15:many-shapes", "after several different input shapes the transformed module no longer "
+                                      "quantises" + (" (it computes the untransformed function)" if plain else ""), key)
+                        break
         # ---------------- root module that is itself a torch.nn layer
         for layer_name, layer, x in (("nn.Linear", nn.Linear(8, 4), torch.randn(3, 8)),):
             key = {"path": "dynamo", "root": layer_name}
